@@ -174,7 +174,7 @@ def run(check, an: Analysis):
                            'cancelling a finished task does nothing',
                            path=rules.path_lines(path))
         elif stores:
-            value = path.events[stores[0]]['value']
+            value = rules.value_expr(path, stores[0], path.events[stores[0]]['value'])
             ok = not sched and len(dones) == 1 and _is_result_tuple(
                 value, None, 'TaskCancelled', ['self', '*token'])
             seen.add('created')
@@ -222,10 +222,12 @@ def run(check, an: Analysis):
                    where_fn(cancel.fn), 'cancel distinguishes %s' % sorted(seen))
     # created branch is selected by the CREATED state
     tests = [n for n in ast.walk(cancel.fn.node) if isinstance(n, ast.If)]
-    state_test = any('status' in ast.unparse(t.test) and 'CREATED' in ast.unparse(t.test)
-                     for t in tests)
+    state_test = any(
+        ('status' in ast.unparse(t.test) and 'CREATED' in ast.unparse(t.test))
+        or any(isinstance(c, ast.Compare) and _scope.classify_started_test(c)
+               for c in ast.walk(t.test)) for t in tests)
     check.instance('K', 'cancel:created-test', state_test, where_fn(cancel.fn),
-                   'the immediate branch is guarded by `status is TaskState.CREATED`')
+                   'the immediate branch is guarded by the CREATED state of the task')
     transcript = an.method(_scope.CANCEL_TASK, '__transcript__')
     calls = [n for n in ast.walk(transcript.node) if isinstance(n, ast.Call)
              and ast.unparse(n.func) == 'TaskCancelled']
@@ -253,7 +255,7 @@ def run(check, an: Analysis):
             continue
         cause = _terminal_cause(path)
         calls = [e for e in path.events if is_call_to(e, '__child_finished__')]
-        values = [_scope.child_finished_flag(e) for e in calls]
+        values = [_scope.child_finished_flag(e, path) for e in calls]
         flags.setdefault(cause, set()).add(tuple(values))
     expected = {'success': (False,), 'cancelled': (False,), 'closed': (False,),
                 'failed': (True,), 'pre-run-exit': (False,)}
